@@ -81,8 +81,12 @@ def good_data(fam, cfg, rs, n, w, loud=False):
         return d
     if loud and fam in ('cpa', 'cpa_alt'):
         return (rs.randint(0, 16, (n, w)) + 100).astype('uint8')
-    if loud and fam in PARTITIONED_OR_TDPA:
-        lo, hi = (4, 9) if style != 'big' else (41, 64)
+    if loud and fam == 'template_dpa_match':
+        return rs.randint(4, 9, (n, w)).astype('uint8')
+    if loud and fam in PARTITIONED:
+        # another value BRACKET than the accepted batches (automatic classes: 9 / 64 / 256): a class map left behind by a refused
+        # first call would then differ from the one the first accepted batch must build
+        lo, hi = (10, 41) if style == 'small' else (0, 4)
         return rs.randint(lo, hi, (n, w)).astype('uint8')
     if fam == 'dpa':
         d = rs.randint(0, 2, (n, w))
@@ -96,8 +100,11 @@ def good_data(fam, cfg, rs, n, w, loud=False):
         return rs.randint(0, 4, (n, w)).astype('uint8')
     if fam == 'template_dpa_match':
         return rs.randint(0, 4, (n, w)).astype('uint8')
-    hi = 4 if style == 'small' else 41
-    return rs.randint(0, hi, (n, w)).astype('uint8')
+    hi = {'small': 4, 'big': 41, 'wide': 201}[style]
+    d = rs.randint(0, hi, (n, w)).astype('uint8')
+    if style != 'small' and n > 1:
+        d[0, :] = hi - 1                     # the bracket of the batch is the intended one
+    return d
 
 
 CONSTS = {'0.3': 0.3, '0.7': 0.7, '1/3': 1.0 / 3.0}
@@ -747,6 +754,16 @@ class UpdKind(Kind):
                         yield self.case(fam, cc, history_with_insertions(
                             fam, vseed, T, W, [200, 150, 100],
                             {0: first, 1: ['words', 'tlen'], 2: dt + ['words'], 3: ['words', 'tlen_short', 'traces_str']}, op=self.via))
+            # --- a refused FIRST call that fails after _initialize completed, with a SMALLER value bracket (0..3: 9 classes) than the
+            #     accepted batches (0..40: 64 classes, 0..200: 256 classes): nothing of its class map may survive
+            if fam in PARTITIONED:
+                post_init = ['data_float', 'data_int64', 'mem', 'traces_str', 'traces_f16'] + (['mia_const'] if fam == 'mia' else []) \
+                    + (['words'] if fam == 'template_build' else [])
+                for style in ('big', 'wide'):
+                    sc = dict(cfg, style=style)
+                    for i in range(0, len(post_init), 3):
+                        yield self.case(fam, sc, history_with_insertions(fam, vseed, T, W, [10, 7, 5],
+                                                                         {0: post_init[i:i + 3], 2: ['tlen', 'data_float']}, op=self.via))
             # --- configurations
             if fam in ('anova', 'snr', 'mia') and self.via == 'update':
                 big = dict(cfg, style='big')
